@@ -37,6 +37,9 @@ CHECKS = {
                 note="trusts Python's fractions module and the harness's parsing of the driver output; operands are bounded so that no 64-bit overflow can occur",
                 technique=T_DIFF),
 }
+CHECKS["C16"] = dict(text="(a) thousands of random token streams tokenised by the real lexer and by a reference tokenizer written from the token table; (b) one small valid program per declaration/statement shape must be read; (c) hundreds of programs pinning fresh variables to random constant expression trees (all operators, redundant parentheses, random layout and comments) run through read+solve on Debug and Release builds - the solution must report exactly the value the expression denotes",
+                     note="trusts the reference tokenizer/evaluator; mixing different operators of one precedence level without parentheses, '(x)+1' (a cast) and numerals beyond 64 bits are not generated; typedef is not exercised (semantics undocumented)",
+                     technique="runtime monitoring: differential execution of lexer/reader/solver against a reference tokenizer and exact evaluator")
 NA_REASON = "check not built yet in this round (planned; see DESIGN.md)"
 
 hooks_commits = subprocess.run(["git", "-C", "/repo", "log", "--format=%h", "--grep=ORATIO_VERIF"], stdout=subprocess.PIPE, text=True).stdout.split()
